@@ -393,18 +393,32 @@ static void gen(hx_plan_t *p, hx_rng_t *r)
         hx_set_knob(p, "b_shape", pack_shape(M2, N2, mb2, nb2));
         hx_set_knob(p, "b_grid", grid2);
         hx_set_knob(p, "b_seed", hx_below(r, 1000));
+        mat_desc_t dy, dt;
+        decode_desc(p, "a", &dy, P, 0);
+        decode_desc(p, "b", &dt, P, 0);
         int nops = hx_chance(r, 70) ? 1 : 2;
         for (int i = 0; i < nops; i++) {
             int pad = hx_chance(r, 10);
             int YM = pad ? ((M + mb - 1) / mb) * mb : M, YN = pad ? ((N + nb - 1) / nb) * nb : N;
             int TM = pad ? ((M2 + mb2 - 1) / mb2) * mb2 : M2, TN = pad ? ((N2 + nb2 - 1) / nb2) * nb2 : N2;
             int maxr = YM < TM ? YM : TM, maxc = YN < TN ? YN : TN;
-            /* bias towards large windows (several tiles) but keep small ones */
-            int sr = hx_chance(r, 50) ? (int)hx_range(r, (maxr + 1) / 2, maxr) : (int)hx_range(r, 1, maxr);
-            int sc = hx_chance(r, 50) ? (int)hx_range(r, (maxc + 1) / 2, maxc) : (int)hx_range(r, 1, maxc);
-            long a = (sr - 1) | ((sc - 1) << 8);
-            long b = hx_below(r, YM - sr + 1) | (hx_below(r, YN - sc + 1) << 8) | (hx_below(r, TM - sr + 1) << 16) | (hx_below(r, TN - sc + 1) << 24);
             int snap = same_tiles ? hx_chance(r, 75) : hx_chance(r, 10);
+            /* an SBC matrix only stores one triangle: retry until the window references stored tiles only (a refused
+             * call is kept in 1 plan out of 10 of those that never fit) */
+            int sr = 1, sc = 1, dyi = 0, dyj = 0, dti = 0, dtj = 0;
+            for (int tries = 0; tries < 40; tries++) {
+                /* bias towards large windows (several tiles) but keep small ones */
+                sr = hx_chance(r, 50) ? (int)hx_range(r, (maxr + 1) / 2, maxr) : (int)hx_range(r, 1, maxr);
+                sc = hx_chance(r, 50) ? (int)hx_range(r, (maxc + 1) / 2, maxc) : (int)hx_range(r, 1, maxc);
+                dyi = (int)hx_below(r, YM - sr + 1); dyj = (int)hx_below(r, YN - sc + 1);
+                dti = (int)hx_below(r, TM - sr + 1); dtj = (int)hx_below(r, TN - sc + 1);
+                int a0 = dyi, a1 = dyj, a2 = dti, a3 = dtj;
+                if (snap) { a0 -= a0 % mb; a1 -= a1 % nb; a2 -= a2 % mb2; a3 -= a3 % nb2; }
+                if (sbc_region_stored(&dy, sr, sc, a0, a1) && sbc_region_stored(&dt, sr, sc, a2, a3)) break;
+                if (tries == 0 && hx_chance(r, 4)) break;
+            }
+            long a = (sr - 1) | ((sc - 1) << 8);
+            long b = dyi | (dyj << 8) | (dti << 16) | ((long)dtj << 24);
             long c = hx_below(r, 2) | (snap << 1) | (pad << 2);
             hx_add_op(p, 0, OP_REDIST, a, b, c);
         }
